@@ -5,15 +5,21 @@ package moss
 func init() { vxRegister("vxH_C13_writeBack", vxH_C13_writeBack) }
 
 func vxH_C13_writeBack() {
-	steps, kl, vl, nfail := 3, 1, 1, 1
+	steps, kl, vl, nfail := 4, 1, 1, 1
 	if vxTier() == 1 {
-		steps, nfail = 3, 2
+		steps, nfail = 5, 2
 	}
 	co := CollectionOptions{CachePersisted: vxChoose(2) == 1}
 	ll := vxNewLL(nil)
 	for i := 0; i < nfail; i++ {
 		ll.fail = append(ll.fail, vxChoose(2) == 1)
 	}
+	// optionally one LowerLevelUpdate call stalls (a slow lower level) and is
+	// released by the harness at a later step
+	if vxChoose(2) == 1 {
+		ll.stallAt = vxChoose(2)
+	}
+	released := false
 	nerr := 0
 	co.LowerLevelInit = ll.snapshot()
 	co.LowerLevelUpdate = ll.update
@@ -28,19 +34,29 @@ func vxH_C13_writeBack() {
 	nbatches := 0
 	// one symbolic probe key for the whole history: every assertion is
 	// decided for all of its values
-	K := vxNewKey(kl)
+	// fixed key, symbolic operation kinds and values: the property is about
+	// hand-over order, not key comparison (C01/C10 cover that)
+	var K vxKey
+	K.n, K.b[0] = 1, 'k'
 	kb := vxKeyBytes(K)
+	_, _ = kl, vl
 	for s := 0; s < steps; s++ {
 		kind := 1
 		if nbatches > 0 {
-			kind = vxChoose(4)
+			kind = vxChoose(5)
 		}
 		if kind == 0 {
 			break
 		}
 		switch kind {
+		case 4:
+			if ll.stallAt >= 0 && !released {
+				close(ll.release)
+				released = true
+				vxQuiesce()
+			}
 		case 1:
-			ents := vxNewBatchEnts(1, kl, vl, vxOpsSetDel)
+			ents := vxFixedSegW(vxOpsSetDel, 0)
 			vxExec(c, ents)
 			layers = append(layers, ents)
 			nbatches++
@@ -59,6 +75,10 @@ func vxH_C13_writeBack() {
 		snap.Close()
 	}
 	// drain: let merger and persister run until nothing moves
+	if ll.stallAt >= 0 && !released {
+		close(ll.release)
+		released = true
+	}
 	vxQuiesce()
 	c.NotifyMerger("go", true)
 	vxQuiesce()
